@@ -12,6 +12,7 @@ import (
 	"strings"
 
 	"verifharness/apkb"
+	"verifharness/apkv"
 	"verifharness/c04"
 	"verifharness/c06"
 	"verifharness/c07"
@@ -50,6 +51,7 @@ var handlers = map[string]func([]string) string{
 	"MSI":   c18.MsiHandle,
 	"JAR":   jar.Handle,
 	"APK":   apkb.Handle,
+	"APKV":  apkv.Handle,
 	"ZIPRW": ziprw.Handle,
 	"CAB":   cab.Handle,
 	"PS":    ps.Handle,
@@ -151,6 +153,9 @@ func init() {
 		}
 		if p == "C01" || p == "C08" {
 			gens[p] = append(gens[p], forProp(p, apkb.Gen))
+		}
+		if p == "C01" || p == "C02" {
+			gens[p] = append(gens[p], forProp(p, apkv.Gen))
 		}
 		if p == "C03" || p == "C08" {
 			gens[p] = append(gens[p], forProp(p, ziprw.Gen))
